@@ -186,3 +186,61 @@ Proof.
     vm_compute in E2; try discriminate.
   exists s. apply rg_ok_inj in E2. subst s. repeat split; vm_compute; try reflexivity. lia.
 Qed.
+
+(* ---- orthogonality for a whole iteration: at EVERY decision node the regret added (before plus-clipping) is orthogonal
+        to the strategy played there; the new regret table is that sum (plain) / its positive part (plus) *)
+Theorem regret_orthogonal_iteration : forall s terminal used s',
+  rg_inv s -> rg_nonneg terminal -> rg_iteration s terminal used = RgOk s' ->
+  exists qs exl,
+    rg_regret s' = rg_regret_update (rg_plus s) (rg_regret s) qs exl /\
+    forall i, (i < rg_nrm s)%nat ->
+      exists sg, rg_strategy s (rg_node s i) = RgOk sg /\
+        rg_dot sg (rg_map2 Qminus (nth i (rg_regret_update false (rg_regret s) qs exl) []) (nth i (rg_regret s) [])) == 0.
+Proof. exact rg_iteration_orthogonal. Qed.
+Print Assumptions regret_orthogonal_iteration.
+
+(* rg_inv is established by the (by-id, clamped-or-within-range) constructor and preserved by iterations *)
+Theorem constructor_establishes_invariant : forall clamp (np nc lim : nat) plus s,
+  (1 <= lim)%nat -> (clamp = true \/ (lim <= nc)%nat) ->
+  rg_mk (rg_mkvariant ById clamp) np nc lim plus = RgOk s -> rg_inv s.
+Proof. exact rg_constructor_inv. Qed.
+Print Assumptions constructor_establishes_invariant.
+
+Theorem iteration_preserves_invariant : forall s terminal used s',
+  rg_inv s -> rg_nonneg terminal -> rg_iteration s terminal used = RgOk s' -> rg_inv s'.
+Proof. exact rg_rm_invariant_step. Qed.
+Print Assumptions iteration_preserves_invariant.
+
+Example regret_orthogonal_iteration_ex :
+  exists s s', rg_mk (rg_mkvariant ById true) 3 3 2 false = RgOk s /\ rg_nonneg [1; 0; 0] /\
+    rg_iteration s [1; 0; 0] [[3; 5]; [5; 6]; [3; 6]]%N = RgOk s' /\
+    nth 0 (rg_regret s') [] = [1#6; 1#6; -1#3] /\ rg_strategy s 0%N = RgOk [1#3; 1#3; 1#3].
+Proof.
+  destruct (rg_mk (rg_mkvariant ById true) 3 3 2 false) as [s| | |] eqn:E; try (vm_compute in E; discriminate).
+  exists s. vm_compute in E. apply rg_ok_inj in E. subst s.
+  match goal with |- exists s', _ /\ _ /\ ?r = RgOk s' /\ _ => destruct r as [s'| | |] eqn:E2 end;
+    vm_compute in E2; try discriminate.
+  exists s'. apply rg_ok_inj in E2. subst s'. split; [reflexivity|]. split; [repeat constructor; lra|].
+  repeat split; vm_compute; reflexivity.
+Qed.
+
+(* ---- the positive counterpart of rm_unclamped_refuted: with the limit clamped (or within range) no iteration of any
+        non-negative history ever produces NaN, for every nc and every limit >= 1 *)
+Theorem rm_clamped_never_nan : forall clamp (np nc lim : nat) plus s0 hist,
+  (1 <= lim)%nat -> (clamp = true \/ (lim <= nc)%nat) ->
+  rg_mk (rg_mkvariant ById clamp) np nc lim plus = RgOk s0 ->
+  Forall (fun tu => rg_nonneg (fst tu)) hist ->
+  rg_run s0 hist <> RgNaN.
+Proof. exact rg_run_no_nan. Qed.
+Print Assumptions rm_clamped_never_nan.
+
+Example rm_clamped_never_nan_ex :   (* the refutation witness (n = 3, limit 4), now clamped: one iteration is fine *)
+  exists s0 s1, rg_mk (rg_mkvariant ById true) 3 3 4 false = RgOk s0 /\ rg_nrm s0 = 7%nat /\
+    rg_iteration s0 [2] [[3; 5; 6]]%N = RgOk s1 /\ rg_strategy s1 0%N = RgOk [1#3; 1#3; 1#3].
+Proof.
+  destruct (rg_mk (rg_mkvariant ById true) 3 3 4 false) as [s0| | |] eqn:E; try (vm_compute in E; discriminate).
+  exists s0. vm_compute in E. apply rg_ok_inj in E. subst s0.
+  match goal with |- exists s', _ /\ _ /\ ?r = RgOk s' /\ _ => destruct r as [sx| | |] eqn:E2 end;
+    vm_compute in E2; try discriminate.
+  exists sx. apply rg_ok_inj in E2. subst sx. repeat split; vm_compute; reflexivity.
+Qed.
